@@ -462,6 +462,9 @@ func (x *FnCtx) resolveModItem(it *Expr, ec *EvalCtx) (modItem, error) {
 		if it.Name == "nothing" {
 			return modItem{kind: "none"}, nil
 		}
+		if strings.HasPrefix(it.Name, "E_") {
+			return modItem{kind: "emap", ghost: "E." + it.Name[2:]}, nil
+		}
 		if strings.HasPrefix(it.Name, "$") {
 			return modItem{kind: "ghost", ghost: it.Name}, nil
 		}
@@ -602,6 +605,16 @@ func (x *FnCtx) havocItems(st *State, items []modItem) {
 			name := "C." + elemKey(it.t)
 			v := x.freshOf("hv.cell", it.t).(*Term)
 			st.heap.m[name] = x.tb.Store(x.heapGet(st.heap, name, x.fieldMapSort(it.t)), it.ref, v)
+		case "emap":
+			if s, ok := x.heapSorts[it.ghost]; ok {
+				st.heap.m[it.ghost] = x.tb.Fresh("hv."+it.ghost, s)
+			} else {
+				et := map[string]types.Type{"E.u16": types.Typ[types.Uint16], "E.u8": types.Typ[types.Uint8], "E.u32": types.Typ[types.Uint32]}[it.ghost]
+				if et != nil {
+					x.heapGet(st.heap, it.ghost, x.contentsSort(et))
+					st.heap.m[it.ghost] = x.tb.Fresh("hv."+it.ghost, x.heapSorts[it.ghost])
+				}
+			}
 		case "ghost":
 			g := x.eng.specs.Ghosts[it.ghost[1:]]
 			if g != nil {
@@ -640,6 +653,15 @@ func (x *FnCtx) frameObligations(name string, entry, exit *State, items []modIte
 		}
 		e1 := exit.heap.m[k]
 		if e0 == e1 {
+			continue
+		}
+		skip := false
+		for _, it := range items {
+			if it.kind == "emap" && it.ghost == k {
+				skip = true
+			}
+		}
+		if skip {
 			continue
 		}
 		key := tb.Fresh("fk", IntSort)
